@@ -116,4 +116,18 @@ CHECKS = {
                  'calls coinciding with the loss instant are accepted either way'),
         'technique': 'deterministic simulation with iteration-relative triggers + reference-model check of the server-side frame history',
     },
+    'C06': {
+        'category': 'exploration',
+        'text': ('1-3 transfers (downloads from / uploads to scripted transfer peers) under fast / slow / black-holed / dead / refused '
+                 'peer connects, server status notifications and other transfers driving management cycles; abort / pause / remove is '
+                 'placed on a trigger at the k-th negotiation event of the target transfer (k = 0..15 enumerated for every base '
+                 'scenario in the corpus) plus j loop iterations; after the call returned the peers go silent about the file and a '
+                 '300 s window is observed with a sender-side wire tap (frames, address lookups, connects) and a field snapshot; a '
+                 'per-iteration monitor counts pending negotiation tasks per transfer and kind.'),
+        'design_ref': 'DESIGN.md section 3 (C06)',
+        'note': ('refusals sent in answer to peer frames already in flight are not counted; negotiation tasks are identified by '
+                 'coroutine name and bound transfer (private naming, collected through the task factory); a stop call that never '
+                 'returns within 200 virtual s is reported'),
+        'technique': 'deterministic simulation with event-indexed triggers and slow/hanging connects + silence-window history check',
+    },
 }
